@@ -212,7 +212,9 @@ mutual
         match ← compDefOf n with
         | none => throw (.crash .localCompositeType)
         | some (_, body) =>
-          withAct (fun id => { id := id, name := n, isComp := true }) do
+          -- a record type that is not defined in the declaring scope itself is a global one: its body's type names are global
+          let loc ← compDefOf n false
+          withAct (fun id => { id := id, name := n, isComp := true, typeGlobal := loc.isNone }) do
             runBlock f body
             let a ← curAct
             pure (.comp n ((a.vars.map fun s => (s.name, s.val)) ++ (a.arrs.map fun s => (s.name, s.val))))
